@@ -66,4 +66,12 @@ PROPS = {
         "rule": "cases: i64 boundaries (all 2^k, 2^k+-1, min/max) exhaustively + random; i128 values around 2^63/2^64/2^127; f64 specials, 10^k and neighbours for every k, uniform bit patterns, uniform decimal exponents, integral floats up to 1e308; f32 bit patterns; literals at the range edges in bases 2/8/10/16 with signs, zeros, underscores; floats around the overflow threshold (exact midpoint between MAX and 2^1024 and its neighbours) with +,- and no sign; TOML integers into 12 narrower serde targets. distinct = value/literal hash; all non-trivial",
         "assumptions": COMMON + ["f32: parse-back is judged by whether the read value lies in the rounding interval of the f32 (midpoints are exact doubles)"],
     },
+    "C12": {
+        "claimed": True,
+        "technique": "three-way relational monitor (standalone FromStr, document/value parser, independent date-time grammar) over exhaustive field lattices and mutants; print/parse round-trip monitor",
+        "level_text": "every string of the exhaustive field lattices (years x months 00-13 x days 00-32, hours 00-25 x minute/second edges x 0-13 fraction digits, offsets +-00-25:{00,59,60,99}, delimiters T/t/space, Z/z) and several hundred thousand substitution/insertion/deletion/truncation mutants of valid strings is given to Datetime::from_str, Value::from_str, a document and R's grammar; all verdicts and fields must agree. Every in-range Datetime (parsed or struct literal) is printed, read back by both parsers and by R, and printed again",
+        "level_note": "trusted: refmodel::parse_datetime (strict ABNF + range rules, leap years, second 60 allowed)",
+        "rule": "cases: lattice strings (exhaustive), random crosses of lattice fields, rendered valid date-times in every spelling, 1-2 step mutants over the alphabet 0-9 - : . + T t Z z space; printed values from the lattices, from parsing, and from struct literals with in-range fields. distinct = string / value hash; all non-trivial",
+        "assumptions": COMMON + ["strings with a leading or trailing blank are compared only between Datetime::from_str and the grammar (inside a document the blank is not part of the token)"],
+    },
 }
